@@ -212,7 +212,11 @@ def blueprint_text(spec):
     heights = list(spec.get("heights") or [25.0] * nb)
     heights = (heights * nb)[:nb]
     xs = ["A"] * nb
-    lines = [BLOCKS, "assemblies:"]
+    blocks_text = BLOCKS
+    if spec.get("fuel_target"):
+        # a designated (non-default) axial-expansion target on the fuel blocks
+        blocks_text = blocks_text.replace("    fuel: &block_fuel\n", f"    fuel: &block_fuel\n        axial expansion target component: {spec['fuel_target']}\n")
+    lines = [blocks_text, "assemblies:"]
     lines.append(f"    heights: &hts [{', '.join(str(float(h)) for h in heights)}]")
     lines.append(f"    axial mesh points: &amp [{', '.join('1' for _ in range(nb))}]")
     for name, spec_id, enr in (("igniter fuel", "IC", 0.11), ("outer fuel", "OC", 0.15)):
@@ -227,21 +231,23 @@ def blueprint_text(spec):
         lines.append(f"            U235_wt_frac: [{', '.join(mods_u)}]")
         lines.append(f"            ZR_wt_frac: [{', '.join(mods_z)}]")
         lines.append(f"        xs types: [{', '.join(xs)}]")
+    co = spec.get("core_origin") or [0.0, 0.0, 0.0]
+    so = spec.get("sfp_origin") or [5000.0, 5000.0, 6000.0]
     lines.append("systems:")
     lines.append("    core:")
     lines.append("        grid name: core")
     lines.append("        origin:")
-    lines.append("            x: 0.0")
-    lines.append("            y: 0.0")
-    lines.append("            z: 0.0")
+    lines.append(f"            x: {float(co[0])}")
+    lines.append(f"            y: {float(co[1])}")
+    lines.append(f"            z: {float(co[2])}")
     if spec.get("sfp", True):
         lines.append("    Spent Fuel Pool:")
         lines.append("        type: sfp")
         lines.append("        grid name: sfp")
         lines.append("        origin:")
-        lines.append("            x: 5000.0")
-        lines.append("            y: 5000.0")
-        lines.append("            z: 6000.0")
+        lines.append(f"            x: {float(so[0])}")
+        lines.append(f"            y: {float(so[1])}")
+        lines.append(f"            z: {float(so[2])}")
     lines.append("grids:")
     lines.append("    core:")
     lines.append(f"      geom: {spec.get('geom', 'hex')}")
